@@ -285,7 +285,7 @@ impl Stage for Lockstep {
     fn check(&self, case: &Case) -> Outcome {
         let prog = &case.prog;
         let mut out = Outcome::new(fnv_str(&prog.text()));
-        let mut eg = egglog::EGraph::default();
+        let mut eg = engine();
         eg.seminaive = !self.naive_engine;
         if !declare(&mut eg, &prog.sig, &mut out) {
             return out;
